@@ -16,11 +16,11 @@ def add(pid, technique, design, text, note=NOTE):
 add("C01", T_PATH, "DESIGN.md §4 C01",
     "Conservation ledger: on every CFG path of add_order, match_order (per loop iteration, match_against inlined), update_order (all five arms) and every other function discovered (from the MIR, on each run) to write a level's counters or queue, the affine sum of the fetch_add/fetch_sub operands on each aggregate equals the display/hidden/count contribution of the orders pushed minus those taken; constructors are zero+empty or derive the counters from the refreshed snapshot they queue; re-adding constructors only use new()+add_order and hand every decoded order to it; no writer of a level's counters/queue lies outside the analysed set; the listing shows each map entry once. This decides the inductive step of the invariant for every order type and parameter value (a necessary and, with unique ids, sufficient condition); histories are not executed.")
 add("C02", T_PATH, "DESIGN.md §4 C02",
-    "Loop invariant 'sum of transaction quantities + remaining = requested' as an affine identity on every iteration path of match_order; provenance of each Transaction::new argument (fresh id from the generator passed in, taker param, popped maker id, self.price, consumed, opposite side); transaction iff consumed>0; filled list iff traded and left; add_transaction agrees with a reference; ledger balance for the per-order lifetime bound. Static necessary conditions of the accounting statement; id uniqueness is C14's.")
+    "Loop invariant 'sum of transaction quantities + remaining = requested' as an affine identity on every iteration path of match_order; provenance of each Transaction::new argument (fresh id from the generator passed in, taker param, popped maker id, self.price, consumed, opposite side); transaction iff consumed>0; filled list iff traded and left; add_transaction agrees with a reference; ledger balance for the per-order lifetime bound. Static necessary conditions of the accounting statement; id uniqueness is C14's. Plus the queue primitives read sequentially (push stores the very value it is given under its own id, pop/remove hand out their own map removal, nobody else writes the containers): the order a match meets is the order as last amended.")
 add("C03", T_EFF, "DESIGN.md §4 C03",
     "Ownership discipline that makes quantity conservation schedule-independent: every counter delta and every re-queued order is a function of values the operation exclusively owns (payload of pop/remove), applied with atomic RMWs, balanced without any lookup/removal aliasing, and OrderQueue hands an entry out only through its own map removal. Sufficient on paper given linearizable containers; no interleaving is enumerated.")
 add("C04", T_EFF, "DESIGN.md §4 C04",
-    "Necessary structural conditions of time priority only: FIFO shape of push/pop, order-preserving constructors, insertion only through push, forward drain of parked orders; the two structural deviations of the pinned tree (tail re-queue of an unreplenished survivor, stale tickets) are reported as known findings. The priority relation over histories is not decided.")
+    "Necessary structural conditions of time priority only: FIFO shape of push/pop, order-preserving constructors, insertion only through push, forward drain of parked orders; the two structural deviations of the pinned tree (tail re-queue of an unreplenished survivor, stale tickets) are reported as known findings. The priority relation over histories is not decided. Plus C05's clause consumed = min(incoming, displayed) on every path of match_against (hidden quantity never trades in place).")
 add("C05", T_REF, "DESIGN.md §4 C05",
     "All CFG paths of OrderType::match_against (loop-free) are walked over its MIR with term values; for each of the 7 variants every path is compared with the paths of a reference function transcribed from the property text (equal outputs as affine terms under the union of path facts), plus identity-field preservation, arithmetic-guard and conservation rules. Because the function is loop-free and every non-contradictory path pair is compared, agreement is an all-inputs statement about the source.")
 add("C06", T_PATH, "DESIGN.md §4 C06",
@@ -30,7 +30,7 @@ add("C07", T_EFF, "DESIGN.md §4 C07",
 add("C08", T_EFF, "DESIGN.md §4 C08",
     "Publish order inside push (map insert before ticket), every map entry ticketed (who-may-call on the two containers), single hand-out through the map removal, nothing dropped (balance without aliasing, parked orders drained), private storage. Sufficient on paper for 'exactly one taker' given linearizable containers; no schedule is explored.")
 add("C09", T_EFF, "DESIGN.md §4 C09",
-    "Must-pass-through and provenance rules on the restore path: from_snapshot_json/from_snapshot_package can only obtain a snapshot as the Ok payload of into_snapshot, which returns the untouched field after validate(&self); validate reaches Ok only through the version-equality and the checksum-equality facts; the checksum is the full SHA-256 digest of serde_json::to_vec of the whole snapshot, whose hand-written Serialize emits every field; the hand-written reader rejects unknown/duplicate/missing keys; who-may-read the protected field. With collision resistance and serde_json's totality (trusted) every content-changing edit is rejected. No fault is injected.")
+    "Must-pass-through and provenance rules on the restore path: from_snapshot_json/from_snapshot_package can only obtain a snapshot as the Ok payload of into_snapshot, which returns the untouched field after validate(&self); validate reaches Ok only through the version-equality and the checksum-equality facts; the checksum is the full SHA-256 digest of serde_json::to_vec of the whole snapshot, whose hand-written Serialize emits every field; the hand-written reader rejects unknown/duplicate/missing keys; who-may-read the protected field. With collision resistance and serde_json's totality (trusted) every content-changing edit is rejected. No fault is injected. No skip attribute and no substituted field serializer (serialize_with/with/getter/into/flatten) inside the checksummed type closure.")
 add("C10", T_EFF, "DESIGN.md §4 C10",
     "Every construction site of a PriceLevel derives its counters from the orders it queues (refresh_aggregates fold or new()+add_order), carried aggregates of PriceLevelData / the text form are never read, the listing is a timestamp-sorted collect over the map, the snapshot constructors have no error path. Field equality after a trip rests on C16/C17's codec tables.")
 add("C14", T_EFF, "DESIGN.md §4 C14",
